@@ -1,4 +1,5 @@
 pub mod handlers;
+pub mod pty;
 pub mod trace;
 pub mod util;
 pub mod vio;
